@@ -4,6 +4,7 @@ import Drv.AmlScalars
 import Drv.Tables
 import Drv.Fixed
 import Drv.Aml
+import Drv.Sdt
 open Drv
 
 /-- one line `stream case… | impl…` → failures -/
@@ -27,6 +28,7 @@ def checkLine (line : String) : List Fail :=
       | "tblbig" => checkTbl case impl
       | "ent" => checkEnt case impl
       | "fix" => checkFix case impl
+      | "sdt" => checkSdt case impl
       | "aml" => checkAml case impl
       | "amlalt" => checkAml case impl
       | "amlbig" => checkAmlBig case impl
